@@ -8,12 +8,22 @@
 use super::*;
 
 #[cfg(test)]
-fn build_list(page_pool: &PagePool, n: usize, bump: &mut PageNumber, next_free: &mut u32) -> FreeList {
+fn build_list(page_pool: &PagePool, n: usize, bump: &mut PageNumber, next_free: &mut u32, disk: &File) -> FreeList {
     // a clean list with n entries, built through the real API from the empty list
     let mut fl = FreeList { portions: vec![], pop: false, len: 0, fragmented: false, released_portions: vec![] };
     let to_push: Vec<PageNumber> = (0..n).map(|_| { let p = PageNumber(*next_free); *next_free += 1; p }).collect();
-    let _ = fl.commit(page_pool, to_push, bump);
+    let pages = fl.commit(page_pool, to_push, bump);
+    write_pages(disk, &pages);
     fl
+}
+
+/// the store file of the enumeration: a sparse file the written free-list pages go to
+#[cfg(test)]
+fn write_pages(disk: &File, pages: &[(PageNumber, FatPage)]) {
+    use std::os::unix::fs::FileExt;
+    for (pn, page) in pages {
+        disk.write_all_at(&page[..], pn.0 as u64 * PAGE_SIZE as u64).unwrap();
+    }
 }
 
 #[cfg(test)]
@@ -44,7 +54,15 @@ fn native_enum_free_list_commit_contract() {
             for &f in &frees {
                 let mut bump = PageNumber(1_000_000);
                 let mut next_free = 10u32;
-                let mut fl = build_list(&page_pool, n_old, &mut bump, &mut next_free);
+                let disk = tempfile::tempfile().unwrap();
+                disk.set_len(6_000_000u64 * PAGE_SIZE as u64).unwrap();
+                let mut fl = build_list(&page_pool, n_old, &mut bump, &mut next_free, &disk);
+                // [C10/C16] what a reopen reads back from the file is the list that was written
+                {
+                    let back = FreeList::read(&page_pool, &disk, fl.head_pn()).unwrap();
+                    assert!(back.portions == fl.portions && back.len == fl.len && back.fragmented == fl.fragmented && !back.pop,
+                        "old={}: FreeList::read does not give back the list that was committed (len {} vs {}, fragmented {} vs {})", n_old, back.len, fl.len, back.fragmented, fl.fragmented);
+                }
                 assert_eq!(fl.len, n_old, "len after building {}", n_old);
                 let old_tracked = tracked(&fl);
                 let old_heads: std::collections::BTreeSet<u32> = fl.portions.iter().map(|p| p.0 .0).collect();
@@ -69,6 +87,14 @@ fn native_enum_free_list_commit_contract() {
                 let written = fl.commit(&page_pool, freed.clone(), &mut bump);
                 cases += 1;
                 let ctx = format!("old={} allocated={} freed={}", n_old, k, f);
+                // [C10/C16] read back from the file after this sync's pages went out
+                write_pages(&disk, &written);
+                {
+                    let back = FreeList::read(&page_pool, &disk, fl.head_pn()).unwrap();
+                    assert!(back.portions == fl.portions, "{}: FreeList::read gives back other portions than the committed list", ctx);
+                    assert!(back.len == fl.len && back.fragmented == fl.fragmented && !back.pop,
+                        "{}: FreeList::read gives back len {} / fragmented {}, the committed list has {} / {}", ctx, back.len, back.fragmented, fl.len, fl.fragmented);
+                }
                 // ---- C17: copy-on-write
                 let mut decoded_written: Vec<(PageNumber, PageNumber, Vec<PageNumber>)> = Vec::new();
                 for (pn, page) in written {
